@@ -25,9 +25,13 @@ pub struct PlanSpec {
     pub count: u8,
     pub after: bool,
     pub second: Option<(u16, bool)>,
-    /// 0 = any write/fsync, 1 = record (data) writes only, 2 = journal writes, 3 = fsyncs, 4 = metadata writes
+    /// 0 = any write/fsync, 1 = data-area writes only, 2 = journal writes, 3 = fsyncs, 4 = metadata
+    /// writes, 5 = record writes only (retirement markers still work), 6 = marker writes only
     #[serde(default)]
     pub site: u8,
+    /// site-filtered plans: absolute index of the first failing call at that site
+    #[serde(default)]
+    pub from_abs: Option<u32>,
 }
 
 #[derive(Clone, Debug, Serialize, Deserialize)]
@@ -42,9 +46,9 @@ fn plan_strategy() -> BoxedStrategy<PlanSpec> {
         prop_oneof![5 => Just(1u8), 2 => Just(2u8), 3 => Just(3u8), 1 => Just(7u8), 2 => Just(0u8)],
         any::<bool>(),
         proptest::option::weighted(0.3, (any::<u16>(), any::<bool>())),
-        prop_oneof![5 => Just(0u8), 2 => Just(1u8), 1 => Just(2u8), 1 => Just(3u8), 1 => Just(4u8)],
+        prop_oneof![10 => Just(0u8), 3 => Just(1u8), 2 => Just(2u8), 2 => Just(3u8), 2 => Just(4u8), 2 => Just(5u8), 1 => Just(6u8)],
     )
-        .prop_map(|(k, count, after, second, site)| PlanSpec { k, count, after, second: if site == 0 { second } else { None }, site })
+        .prop_map(|(k, count, after, second, site)| PlanSpec { k, count, after, second: if site == 0 { second } else { None }, site, from_abs: None })
         .boxed()
 }
 
@@ -89,7 +93,54 @@ fn burst_strategy() -> BoxedStrategy<FaultCase> {
                 ops.push(Op::Insert { k: crate::ops::KeyRef::Idx(k), v: ValSpec { len: LenClass::Small(l), kind: ValKind::Stamp }, ts: TsSpec::Auto, bytes: false });
             }
             ops.push(Op::Flush);
-            let plans = plans.into_iter().map(|(k, count, after)| PlanSpec { k, count, after, second: None, site: 0 }).collect();
+            let plans = plans.into_iter().map(|(k, count, after)| PlanSpec { k, count, after, second: None, site: 0, from_abs: None }).collect();
+            FaultCase { case: Case { cfg, keys, t0_offset, ops }, plans }
+        })
+        .boxed()
+}
+
+/// Chains of unwritten generations behind a durable one: every key gets an acknowledged first
+/// generation, then record writes fail (markers, journal and metadata keep working) while keys
+/// are updated once to three times per round, with flushes (several workers) and sleeps (periodic
+/// flusher) in between, so retirement passes run again and again during the outage.
+fn chain_strategy() -> BoxedStrategy<FaultCase> {
+    use crate::ops::{key_at, Config, DevSize, LenClass, TsSpec, ValKind, ValSpec};
+    let round = (proptest::collection::vec((any::<u16>(), 1u8..4, 1u16..300), 1..5), prop_oneof![3 => Just(0u8), 2 => Just(1u8), 1 => Just(2u8)]);
+    (
+        6usize..16,
+        prop_oneof![Just(4u8), Just(6u8), Just(8u8), Just(16u8), Just(2u8)],
+        any::<bool>(),
+        0u64..1_000_000_000_000u64,
+        proptest::collection::vec(round, 2..6),
+        prop_oneof![2 => Just(0u8), 1 => Just(9u8), 1 => Just(30u8), 1 => Just(3u8)],
+        prop_oneof![3 => Just(5u8), 1 => Just(1u8)],
+        0u32..4,
+    )
+        .prop_map(|(nkeys, visible_cpus, plain_io, t0_offset, rounds, count, site, slack)| {
+            let cfg = Config { persistent: true, version: 3, cache: false, ttl: false, dev: DevSize::Normal, max_memory: None, plain_io, legacy_plain_meta: false, visible_cpus };
+            let keys: Vec<Vec<u8>> = (0..nkeys).map(|i| format!("c{i:02}").into_bytes()).collect();
+            let put = |j: usize, l: u16| Op::Insert { k: key_at(j, nkeys), v: ValSpec { len: LenClass::Small(l), kind: ValKind::Stamp }, ts: TsSpec::Auto, bytes: false };
+            let mut ops: Vec<Op> = (0..nkeys).map(|j| put(j, 40)).collect();
+            ops.push(Op::Flush);
+            for (updates, end) in rounds {
+                for (k, times, l) in updates {
+                    let j = (k as usize * nkeys) >> 16;
+                    for t in 0..times {
+                        ops.push(put(j, l + t as u16));
+                    }
+                }
+                ops.push(Op::Flush);
+                match end {
+                    1 => ops.push(Op::Sleep),
+                    2 => {
+                        ops.push(Op::Sleep);
+                        ops.push(Op::Flush);
+                    }
+                    _ => {}
+                }
+            }
+            // the first nkeys record writes (the acknowledged generations) succeed
+            let plans = vec![PlanSpec { k: 0, count, after: false, second: None, site, from_abs: Some(nkeys as u32 + slack) }];
             FaultCase { case: Case { cfg, keys, t0_offset, ops }, plans }
         })
         .boxed()
@@ -99,7 +150,7 @@ fn case_strat(tier: Tier) -> BoxedStrategy<FaultCase> {
     let normal = (case_strategy(&bias(tier)), proptest::collection::vec(plan_strategy(), tier.pick(3, 6)..tier.pick(6, 12)))
         .prop_map(|(case, plans)| FaultCase { case, plans })
         .boxed();
-    proptest::strategy::Union::new_weighted(vec![(12, normal), (1, burst_strategy())]).boxed()
+    proptest::strategy::Union::new_weighted(vec![(12, normal), (1, burst_strategy()), (3, chain_strategy())]).boxed()
 }
 
 #[derive(Default, Clone)]
@@ -177,7 +228,11 @@ pub fn run_with_plan(case: &Case, plan: Option<&PlanSpec>, n_estimate: usize, no
     if let Some(p) = plan {
         let span = n_estimate.saturating_sub(calls_at_open).max(4);
         // with a site filter the index counts calls at that site only (about a quarter of all calls)
-        let from = if p.site == 0 { calls_at_open + ((p.k as usize * span) >> 16) } else { (p.k as usize * (span / 4).max(2)) >> 16 };
+        let from = match (p.site, p.from_abs) {
+            (0, _) => calls_at_open + ((p.k as usize * span) >> 16),
+            (_, Some(a)) => a as usize,
+            _ => (p.k as usize * (span / 4).max(2)) >> 16,
+        };
         let second = p.second.map(|(k2, a2)| (calls_at_open + ((k2 as usize * span) >> 16), if a2 { FaultMode::After } else { FaultMode::Before }));
         dev.lock().unwrap().plan = Some(FaultPlan {
             from,
@@ -186,7 +241,7 @@ pub fn run_with_plan(case: &Case, plan: Option<&PlanSpec>, n_estimate: usize, no
             errno: libc::EIO,
             second,
             period: 0,
-            site: match p.site { 1 => Some("data-write"), 2 => Some("journal-write"), 3 => Some("fsync"), 4 => Some("metadata-write"), _ => None },
+            site: match p.site { 1 => Some("data-write"), 2 => Some("journal-write"), 3 => Some("fsync"), 4 => Some("metadata-write"), 5 => Some("record-write"), 6 => Some("marker-write"), _ => None },
         });
     }
     let snapshot_run = |dev: &trace::DeviceRef, hist: &BTreeMap<Vec<u8>, Vec<Hist>>, now: u64| -> WorkloadRun {
